@@ -211,18 +211,28 @@ func HarnessC18Message() {
 	}
 	svReach("rendered")
 	out := w.buf
+	if !hxCheckAllLines(out, long) {
+		return
+	}
+	root := hxParseEntity(out, 0)
+	svAssert(root.bad == "", "malformed:"+root.bad)
+}
+
+// hxCheckAllLines applies the line discipline to every physical line of a
+// rendered message; it returns false if the line structure itself is broken.
+func hxCheckAllLines(out []byte, long bool) bool {
 	start := 0
 	inHeader, partLevel := true, false
 	for i := 0; i < len(out); i++ {
 		c := out[i]
 		if c == '\n' {
 			svAssert(false, "bare-LF")
-			return
+			return false
 		}
 		if c == '\r' {
 			if i+1 >= len(out) || out[i+1] != '\n' {
 				svAssert(false, "bare-CR")
-				return
+				return false
 			}
 			line := out[start:i]
 			switch {
@@ -242,6 +252,51 @@ func HarnessC18Message() {
 		}
 	}
 	svAssert(start == len(out), "unterminated-line")
-	root := hxParseEntity(out, 0)
+	return true
+}
+
+// Multi-value generic headers (SetGenHeader(h, v1, v2, ...)): the values are
+// joined and folded; lengths of the first value around every fold position.
+func HarnessC18MultiValue() {
+	L := 1 + svPick("first-value-length", svParam("maxlen", 100))
+	nv := 2 + svPick("values", 2)
+	menc := hxEnc(svPick("menc", 2))
+	m := NewMsg(WithEncoding(menc))
+	_ = m.From("a@b.c")
+	_ = m.To("d@e.f")
+	m.Subject("multi value")
+	m.SetDateWithValue(hxFixedTime)
+	m.SetMessageIDWithValue("c18@b.c")
+	v1 := make([]byte, L)
+	for i := range v1 {
+		v1[i] = byte('k')
+	}
+	vals := []string{string(v1), "second-list-entry", "third entry with blanks"}[:nv]
+	m.SetGenHeader(Header("Keywords"), vals...)
+	m.SetBodyString(TypeTextPlain, hxPartText[0])
+	w := &hxRecW{}
+	if _, err := m.WriteTo(w); err != nil {
+		svAssert(false, "render-error")
+		return
+	}
+	svReach("rendered")
+	if !hxCheckAllLines(w.buf, false) {
+		return
+	}
+	root := hxParseEntity(w.buf, 0)
 	svAssert(root.bad == "", "malformed:"+root.bad)
+	if root.bad != "" {
+		return
+	}
+	for _, want := range []string{"from", "to", "subject", "date", "message-id", "mime-version", "content-type"} {
+		_, k := hxGet(root.hdrs, want)
+		svAssert(k == 1, "header field missing from the header section after a multi-value field: "+want)
+	}
+	hv, k := hxGet(root.hdrs, "keywords")
+	svAssert(k == 1, "multi-value-field-count")
+	want := vals[0]
+	for _, v := range vals[1:] {
+		want += ", " + v
+	}
+	svAssert(hxEqBytes(hxNormWS(hv), hxNormWS([]byte(want))), "multi-value field does not unfold to the values that were set")
 }
